@@ -410,3 +410,105 @@ package boltz
 //@   ensures[sorted-duplicate-free] old(b.Err) == nil && b.Err == nil ==> forall(i, forall(j, 0 <= i && i < j && j < len(result) ==> str_lt(result[i], result[j])))
 //@   ensures[only-written-elements] old(b.Err) == nil && b.Err == nil ==> forall(i, 0 <= i && i < len(result) ==> exists(k, 0 <= k && k < len(value) && result[i] == value[k]))
 //@   ensures[every-written-element] old(b.Err) == nil && b.Err == nil ==> forall(k, 0 <= k && k < len(value) ==> exists(i, 0 <= i && i < len(result) && result[i] == value[k]))
+
+// ---- containers: one entry of a map / list (setMarshaled, getMarshaled), frames of PutMap / PutList ----
+// isScalar(v): a supported non-container value; encScalar(v): what is stored for it (int widens to int64, float32 to float64)
+//@ define isScalar(v) = v == nil || istype(v, string) || istype(v, int32) || istype(v, int64) || istype(v, int) || istype(v, float32) || istype(v, float64) || istype(v, time.Time) || istype(v, bool)
+//@ define encScalar(v) = ite(v == nil, nilEnc(), ite(istype(v, string), prepend(TypeString, as(v, string)), ite(istype(v, int32), prepend(TypeInt32, le32(u32(as(v, int32)))), ite(istype(v, int64), prepend(TypeInt64, le64(u64(as(v, int64)))), ite(istype(v, int), prepend(TypeInt64, le64(u64(as(v, int)))), ite(istype(v, float32), prepend(TypeFloat64, le64(f64bits(as(v, float32)))), ite(istype(v, float64), prepend(TypeFloat64, le64(f64bits(as(v, float64)))), ite(istype(v, time.Time), prepend(TypeTime, timeBin(timeInstant(as(v, time.Time)))), encBool(as(v, bool))))))))))
+//@ define isContainer(v) = istype(v, map[string]interface{}) || istype(v, []interface{})
+//@ define otherKeysKept(b, n) = forallStr(s, s != n ==> sel(bktHas[b.Bucket], s) == sel(old(bktHas[b.Bucket]), s) && sel(bktVal[b.Bucket], s) == sel(old(bktVal[b.Bucket]), s) && sel(bktSub[b.Bucket], s) == sel(old(bktSub[b.Bucket]), s))
+//@ func (*TypedBucket).setMarshaled
+//@   props C13
+//@   assume bucket.ErrorHolderImpl != nil && bucket.Bucket != nil
+//@   modifies bucket.Err, bktHas[bucket.Bucket], bktVal[bucket.Bucket], bktSub[bucket.Bucket]
+//@   ensures result == bucket
+//@   ensures[skipped] old(bucket.Err) != nil ==> bucket.Err == old(bucket.Err) && kept(bucket) && bktSub[bucket.Bucket] == old(bktSub[bucket.Bucket])
+//@   ensures[scalar-written] old(bucket.Err) == nil && bucket.Err == nil && isScalar(value) ==> wrote(bucket, name, encScalar(value))
+//@   ensures[unsupported-is-an-error] old(bucket.Err) == nil && !isScalar(value) && !(allowNested && isContainer(value)) ==> bucket.Err != nil
+//@   ensures[other-keys-kept] otherKeysKept(bucket, name)
+//@ func (*TypedBucket).getMarshaled
+//@   props C13
+//@   assume bucket.Bucket != nil && bucket.ErrorHolderImpl != nil
+//@   pure
+//@   ensures[null] bucket.Err == nil && !(bktHas[bucket.Bucket][name] && bktSub[bucket.Bucket][name] != 0) && (str_len(cell(bucket, name)) == 0 || tagOf(cell(bucket, name)) == TypeNil) ==> result == nil
+//@   ensures[string] bucket.Err == nil && str_len(cell(bucket, name)) > 0 && tagOf(cell(bucket, name)) == TypeString ==> istype(result, string) && as(result, string) == untag(cell(bucket, name))
+//@   ensures[int32] bucket.Err == nil && str_len(cell(bucket, name)) == 5 && tagOf(cell(bucket, name)) == TypeInt32 ==> istype(result, int32) && as(result, int32) == s32(le32val(untag(cell(bucket, name))))
+//@   ensures[int64] bucket.Err == nil && str_len(cell(bucket, name)) == 9 && tagOf(cell(bucket, name)) == TypeInt64 ==> istype(result, int64) && as(result, int64) == s64(le64val(untag(cell(bucket, name))))
+//@   ensures[float64] bucket.Err == nil && str_len(cell(bucket, name)) == 9 && tagOf(cell(bucket, name)) == TypeFloat64 ==> istype(result, float64) && as(result, float64) == f64frombits(le64val(untag(cell(bucket, name))))
+//@   ensures[time] bucket.Err == nil && str_len(cell(bucket, name)) > 1 && tagOf(cell(bucket, name)) == TypeTime && untag(cell(bucket, name)) == timeBin(timeBinVal(untag(cell(bucket, name)))) ==> istype(result, time.Time) && timeInstant(as(result, time.Time)) == timeBinVal(untag(cell(bucket, name)))
+//@   ensures[bool] bucket.Err == nil && str_len(cell(bucket, name)) > 1 && tagOf(cell(bucket, name)) == TypeBool ==> istype(result, bool) && (str_at(cell(bucket, name), 1) == 1 ==> as(result, bool)) && (str_at(cell(bucket, name), 1) == 0 ==> !as(result, bool))
+//@ func (*TypedBucket).PutMap
+//@   props C13
+//@   assume bucket.ErrorHolderImpl != nil && bucket.Bucket != nil
+//@   modifies bucket.Err, bktHas[bucket.Bucket], bktSub[bucket.Bucket]
+//@   ensures result == bucket
+//@   ensures[skipped] !proceeds(bucket, name, checker) ==> bucket.Err == old(bucket.Err) && bktHas[bucket.Bucket] == old(bktHas[bucket.Bucket]) && bktSub[bucket.Bucket] == old(bktSub[bucket.Bucket])
+//@   ensures[map-bucket] proceeds(bucket, name, checker) && bucket.Err == nil ==> bktHas[bucket.Bucket][name] && bktSub[bucket.Bucket][name] != 0
+//@   ensures[other-keys-kept] otherKeysKept(bucket, name)
+//@   invariant[p0] 1: tagsBucket != nil
+//@   invariant[p1] 1: tagsBucket.Bucket != bucket.Bucket
+//@   invariant[p2] 1: tagsBucket.ErrorHolderImpl != bucket.ErrorHolderImpl
+//@   invariant[p3] 1: tagsBucket.Bucket != nil
+//@   invariant[p4] 1: tagsBucket.ErrorHolderImpl != nil
+//@   invariant[p5] 1: tagsBucket.Bucket == bktSub[bucket.Bucket][name]
+//@   invariant[p6] 1: bktHas[bucket.Bucket][name]
+//@   invariant[p7] 1: bucket.Err == nil
+//@   invariant[p8] 1: otherKeysKept(bucket, name)
+//@ func (*TypedBucket).PutList
+//@   props C13
+//@   assume bucket.ErrorHolderImpl != nil && bucket.Bucket != nil
+//@   assume[list-shorter-than-2^31] len(value) <= MaxInt32
+//@   modifies bucket.Err, bktHas[bucket.Bucket], bktSub[bucket.Bucket]
+//@   ensures result == bucket
+//@   ensures[skipped] !proceeds(bucket, name, checker) ==> bucket.Err == old(bucket.Err) && bktHas[bucket.Bucket] == old(bktHas[bucket.Bucket]) && bktSub[bucket.Bucket] == old(bktSub[bucket.Bucket])
+//@   ensures[list-bucket-with-size-and-scalars] proceeds(bucket, name, checker) && bucket.Err == nil ==> bktHas[bucket.Bucket][name] && bktSub[bucket.Bucket][name] != 0 && sel(bktHas[bktSub[bucket.Bucket][name]], ListSizeKeyName) && sel(bktSub[bktSub[bucket.Bucket][name]], ListSizeKeyName) == 0 && sel(bktVal[bktSub[bucket.Bucket][name]], ListSizeKeyName) == prepend(TypeInt32, le32(len(value))) && forall(j, 0 <= j && j < len(value) && isScalar(value[j]) ==> sel(bktHas[bktSub[bucket.Bucket][name]], prepend(TypeInt32, le32(j))) && sel(bktSub[bktSub[bucket.Bucket][name]], prepend(TypeInt32, le32(j))) == 0 && sel(bktVal[bktSub[bucket.Bucket][name]], prepend(TypeInt32, le32(j))) == encScalar(value[j]))
+//@   ensures[other-keys-kept] otherKeysKept(bucket, name)
+//@   invariant 1: listBucket != nil && listBucket.Bucket != bucket.Bucket && listBucket.ErrorHolderImpl != bucket.ErrorHolderImpl && listBucket.Bucket != nil && listBucket.ErrorHolderImpl != nil && listBucket.Bucket == bktSub[bucket.Bucket][name] && bktHas[bucket.Bucket][name] && bucket.Err == nil && otherKeysKept(bucket, name) && (listBucket.Err == nil ==> forall(j, 0 <= j && j <= rangeindex && isScalar(value[j]) ==> sel(bktHas[listBucket.Bucket], prepend(TypeInt32, le32(j))) && sel(bktSub[listBucket.Bucket], prepend(TypeInt32, le32(j))) == 0 && sel(bktVal[listBucket.Bucket], prepend(TypeInt32, le32(j))) == encScalar(value[j])))
+//@ func (*TypedBucket).GetMap
+//@   props C13
+//@   pure
+//@   ensures result != nil
+// bcell(B, n): like cell, for a raw bucket
+//@ define bcell(B, n) = ite(sel(bktHas[B], n) && sel(bktSub[B], n) == 0, sel(bktVal[B], n), "")
+//@ func (*TypedBucket).GetList
+//@   props C13
+//@   assume bucket != nil && bucket.ErrorHolderImpl != nil && bucket.Bucket != nil
+//@   assume[size-marker-is-a-length] (bucket.Err != nil ==> s32(le32val(untag(cell(bucket, ListSizeKeyName)))) >= 0) && (bucket.Err == nil ==> s32(le32val(untag(bcell(bktSub[bucket.Bucket][name], ListSizeKeyName)))) >= 0)
+//@   requires[list-bucket-exists] bucket.Err == nil ==> bktHas[bucket.Bucket][name] && bktSub[bucket.Bucket][name] != 0
+//@   pure
+//@   ensures[length] bucket.Err == nil && str_len(bcell(bktSub[bucket.Bucket][name], ListSizeKeyName)) == 5 && tagOf(bcell(bktSub[bucket.Bucket][name], ListSizeKeyName)) == TypeInt32 ==> len(result) == s32(le32val(untag(bcell(bktSub[bucket.Bucket][name], ListSizeKeyName))))
+//@   ensures[null-elements] bucket.Err == nil && str_len(bcell(bktSub[bucket.Bucket][name], ListSizeKeyName)) == 5 && tagOf(bcell(bktSub[bucket.Bucket][name], ListSizeKeyName)) == TypeInt32 ==> forall(j, 0 <= j && j < len(result) && (str_len(bcell(bktSub[bucket.Bucket][name], prepend(TypeInt32, le32(j)))) == 0 || tagOf(bcell(bktSub[bucket.Bucket][name], prepend(TypeInt32, le32(j)))) == TypeNil) ==> (!(sel(bktHas[bktSub[bucket.Bucket][name]], prepend(TypeInt32, le32(j))) && sel(bktSub[bktSub[bucket.Bucket][name]], prepend(TypeInt32, le32(j))) != 0) ==> result[j] == nil))
+//@   ensures[string-elements] bucket.Err == nil && str_len(bcell(bktSub[bucket.Bucket][name], ListSizeKeyName)) == 5 && tagOf(bcell(bktSub[bucket.Bucket][name], ListSizeKeyName)) == TypeInt32 ==> forall(j, 0 <= j && j < len(result) && (str_len(bcell(bktSub[bucket.Bucket][name], prepend(TypeInt32, le32(j)))) > 0 && tagOf(bcell(bktSub[bucket.Bucket][name], prepend(TypeInt32, le32(j)))) == TypeString) ==> (istype(result[j], string) && as(result[j], string) == untag(bcell(bktSub[bucket.Bucket][name], prepend(TypeInt32, le32(j))))))
+//@   ensures[int32-elements] bucket.Err == nil && str_len(bcell(bktSub[bucket.Bucket][name], ListSizeKeyName)) == 5 && tagOf(bcell(bktSub[bucket.Bucket][name], ListSizeKeyName)) == TypeInt32 ==> forall(j, 0 <= j && j < len(result) && (str_len(bcell(bktSub[bucket.Bucket][name], prepend(TypeInt32, le32(j)))) == 5 && tagOf(bcell(bktSub[bucket.Bucket][name], prepend(TypeInt32, le32(j)))) == TypeInt32) ==> (istype(result[j], int32) && as(result[j], int32) == s32(le32val(untag(bcell(bktSub[bucket.Bucket][name], prepend(TypeInt32, le32(j))))))))
+//@   ensures[int64-elements] bucket.Err == nil && str_len(bcell(bktSub[bucket.Bucket][name], ListSizeKeyName)) == 5 && tagOf(bcell(bktSub[bucket.Bucket][name], ListSizeKeyName)) == TypeInt32 ==> forall(j, 0 <= j && j < len(result) && (str_len(bcell(bktSub[bucket.Bucket][name], prepend(TypeInt32, le32(j)))) == 9 && tagOf(bcell(bktSub[bucket.Bucket][name], prepend(TypeInt32, le32(j)))) == TypeInt64) ==> (istype(result[j], int64) && as(result[j], int64) == s64(le64val(untag(bcell(bktSub[bucket.Bucket][name], prepend(TypeInt32, le32(j))))))))
+//@   ensures[float64-elements] bucket.Err == nil && str_len(bcell(bktSub[bucket.Bucket][name], ListSizeKeyName)) == 5 && tagOf(bcell(bktSub[bucket.Bucket][name], ListSizeKeyName)) == TypeInt32 ==> forall(j, 0 <= j && j < len(result) && (str_len(bcell(bktSub[bucket.Bucket][name], prepend(TypeInt32, le32(j)))) == 9 && tagOf(bcell(bktSub[bucket.Bucket][name], prepend(TypeInt32, le32(j)))) == TypeFloat64) ==> (istype(result[j], float64) && as(result[j], float64) == f64frombits(le64val(untag(bcell(bktSub[bucket.Bucket][name], prepend(TypeInt32, le32(j))))))))
+//@   ensures[time-elements] bucket.Err == nil && str_len(bcell(bktSub[bucket.Bucket][name], ListSizeKeyName)) == 5 && tagOf(bcell(bktSub[bucket.Bucket][name], ListSizeKeyName)) == TypeInt32 ==> forall(j, 0 <= j && j < len(result) && (str_len(bcell(bktSub[bucket.Bucket][name], prepend(TypeInt32, le32(j)))) > 1 && tagOf(bcell(bktSub[bucket.Bucket][name], prepend(TypeInt32, le32(j)))) == TypeTime && untag(bcell(bktSub[bucket.Bucket][name], prepend(TypeInt32, le32(j)))) == timeBin(timeBinVal(untag(bcell(bktSub[bucket.Bucket][name], prepend(TypeInt32, le32(j))))))) ==> (istype(result[j], time.Time) && timeInstant(as(result[j], time.Time)) == timeBinVal(untag(bcell(bktSub[bucket.Bucket][name], prepend(TypeInt32, le32(j)))))))
+//@   ensures[bool-elements] bucket.Err == nil && str_len(bcell(bktSub[bucket.Bucket][name], ListSizeKeyName)) == 5 && tagOf(bcell(bktSub[bucket.Bucket][name], ListSizeKeyName)) == TypeInt32 ==> forall(j, 0 <= j && j < len(result) && (str_len(bcell(bktSub[bucket.Bucket][name], prepend(TypeInt32, le32(j)))) > 1 && tagOf(bcell(bktSub[bucket.Bucket][name], prepend(TypeInt32, le32(j)))) == TypeBool) ==> (istype(result[j], bool) && (str_at(bcell(bktSub[bucket.Bucket][name], prepend(TypeInt32, le32(j))), 1) == 1 ==> as(result[j], bool)) && (str_at(bcell(bktSub[bucket.Bucket][name], prepend(TypeInt32, le32(j))), 1) == 0 ==> !as(result[j], bool))))
+//@   invariant 1: listBucket != nil && listBucket.ErrorHolderImpl != nil && size != nil && len(result) == *size && 0 <= idx && idx <= *size && (bucket.Err == nil ==> listBucket != nil && listBucket.Bucket == bktSub[bucket.Bucket][name] && listBucket.Bucket != nil && listBucket.ErrorHolderImpl != nil && listBucket.Err == nil && size != nil && *size == s32(le32val(untag(bcell(bktSub[bucket.Bucket][name], ListSizeKeyName)))) && len(result) == *size && 0 <= idx && idx <= *size && forall(j, 0 <= j && j < fv(idx) && (str_len(bcell(bktSub[bucket.Bucket][name], prepend(TypeInt32, le32(j)))) == 0 || tagOf(bcell(bktSub[bucket.Bucket][name], prepend(TypeInt32, le32(j)))) == TypeNil) ==> (!(sel(bktHas[bktSub[bucket.Bucket][name]], prepend(TypeInt32, le32(j))) && sel(bktSub[bktSub[bucket.Bucket][name]], prepend(TypeInt32, le32(j))) != 0) ==> result[j] == nil)) && forall(j, 0 <= j && j < fv(idx) && (str_len(bcell(bktSub[bucket.Bucket][name], prepend(TypeInt32, le32(j)))) > 0 && tagOf(bcell(bktSub[bucket.Bucket][name], prepend(TypeInt32, le32(j)))) == TypeString) ==> (istype(result[j], string) && as(result[j], string) == untag(bcell(bktSub[bucket.Bucket][name], prepend(TypeInt32, le32(j)))))) && forall(j, 0 <= j && j < fv(idx) && (str_len(bcell(bktSub[bucket.Bucket][name], prepend(TypeInt32, le32(j)))) == 5 && tagOf(bcell(bktSub[bucket.Bucket][name], prepend(TypeInt32, le32(j)))) == TypeInt32) ==> (istype(result[j], int32) && as(result[j], int32) == s32(le32val(untag(bcell(bktSub[bucket.Bucket][name], prepend(TypeInt32, le32(j)))))))) && forall(j, 0 <= j && j < fv(idx) && (str_len(bcell(bktSub[bucket.Bucket][name], prepend(TypeInt32, le32(j)))) == 9 && tagOf(bcell(bktSub[bucket.Bucket][name], prepend(TypeInt32, le32(j)))) == TypeInt64) ==> (istype(result[j], int64) && as(result[j], int64) == s64(le64val(untag(bcell(bktSub[bucket.Bucket][name], prepend(TypeInt32, le32(j)))))))) && forall(j, 0 <= j && j < fv(idx) && (str_len(bcell(bktSub[bucket.Bucket][name], prepend(TypeInt32, le32(j)))) == 9 && tagOf(bcell(bktSub[bucket.Bucket][name], prepend(TypeInt32, le32(j)))) == TypeFloat64) ==> (istype(result[j], float64) && as(result[j], float64) == f64frombits(le64val(untag(bcell(bktSub[bucket.Bucket][name], prepend(TypeInt32, le32(j)))))))) && forall(j, 0 <= j && j < fv(idx) && (str_len(bcell(bktSub[bucket.Bucket][name], prepend(TypeInt32, le32(j)))) > 1 && tagOf(bcell(bktSub[bucket.Bucket][name], prepend(TypeInt32, le32(j)))) == TypeTime && untag(bcell(bktSub[bucket.Bucket][name], prepend(TypeInt32, le32(j)))) == timeBin(timeBinVal(untag(bcell(bktSub[bucket.Bucket][name], prepend(TypeInt32, le32(j))))))) ==> (istype(result[j], time.Time) && timeInstant(as(result[j], time.Time)) == timeBinVal(untag(bcell(bktSub[bucket.Bucket][name], prepend(TypeInt32, le32(j))))))) && forall(j, 0 <= j && j < fv(idx) && (str_len(bcell(bktSub[bucket.Bucket][name], prepend(TypeInt32, le32(j)))) > 1 && tagOf(bcell(bktSub[bucket.Bucket][name], prepend(TypeInt32, le32(j)))) == TypeBool) ==> (istype(result[j], bool) && (str_at(bcell(bktSub[bucket.Bucket][name], prepend(TypeInt32, le32(j))), 1) == 1 ==> as(result[j], bool)) && (str_at(bcell(bktSub[bucket.Bucket][name], prepend(TypeInt32, le32(j))), 1) == 0 ==> !as(result[j], bool)))))
+// one container entry written and read back
+//@ func verifRoundTripMarshaled
+//@   props C13
+//@   assume b != nil && b.ErrorHolderImpl != nil && b.Bucket != nil
+//@   modifies b.Err, bktHas[b.Bucket], bktVal[b.Bucket], bktSub[b.Bucket]
+//@   ensures[null] old(b.Err) == nil && b.Err == nil && v == nil ==> result == nil
+//@   ensures[string] old(b.Err) == nil && b.Err == nil && istype(v, string) ==> istype(result, string) && as(result, string) == as(v, string)
+//@   ensures[int32] old(b.Err) == nil && b.Err == nil && istype(v, int32) ==> istype(result, int32) && as(result, int32) == as(v, int32)
+//@   ensures[int64] old(b.Err) == nil && b.Err == nil && istype(v, int64) ==> istype(result, int64) && as(result, int64) == as(v, int64)
+//@   ensures[int-widens] old(b.Err) == nil && b.Err == nil && istype(v, int) ==> istype(result, int64) && as(result, int64) == as(v, int)
+//@   ensures[float64] old(b.Err) == nil && b.Err == nil && istype(v, float64) ==> istype(result, float64) && as(result, float64) == as(v, float64)
+//@   ensures[float32-widens] old(b.Err) == nil && b.Err == nil && istype(v, float32) ==> istype(result, float64) && as(result, float64) == as(v, float32)
+//@   ensures[time] old(b.Err) == nil && b.Err == nil && istype(v, time.Time) ==> istype(result, time.Time) && timeInstant(as(result, time.Time)) == timeInstant(as(v, time.Time))
+//@   ensures[bool] old(b.Err) == nil && b.Err == nil && istype(v, bool) ==> istype(result, bool) && as(result, bool) == as(v, bool)
+//@ func verifRoundTripList
+//@   props C13
+//@   assume b != nil && b.ErrorHolderImpl != nil && b.Bucket != nil && len(value) <= MaxInt32
+//@   modifies b.Err, bktHas[b.Bucket], bktSub[b.Bucket]
+//@   ensures[length] old(b.Err) == nil && b.Err == nil ==> len(result) == len(value)
+//@   ensures[null-elements] old(b.Err) == nil && b.Err == nil ==> forall(j, 0 <= j && j < len(value) && value[j] == nil ==> result[j] == nil)
+//@   ensures[string-elements] old(b.Err) == nil && b.Err == nil ==> forall(j, 0 <= j && j < len(value) && istype(value[j], string) ==> istype(result[j], string) && as(result[j], string) == as(value[j], string))
+//@   ensures[int32-elements] old(b.Err) == nil && b.Err == nil ==> forall(j, 0 <= j && j < len(value) && istype(value[j], int32) ==> istype(result[j], int32) && as(result[j], int32) == as(value[j], int32))
+//@   ensures[int64-elements] old(b.Err) == nil && b.Err == nil ==> forall(j, 0 <= j && j < len(value) && istype(value[j], int64) ==> istype(result[j], int64) && as(result[j], int64) == as(value[j], int64))
+//@   ensures[int-elements-widen] old(b.Err) == nil && b.Err == nil ==> forall(j, 0 <= j && j < len(value) && istype(value[j], int) ==> istype(result[j], int64) && as(result[j], int64) == as(value[j], int))
+//@   ensures[float64-elements] old(b.Err) == nil && b.Err == nil ==> forall(j, 0 <= j && j < len(value) && istype(value[j], float64) ==> istype(result[j], float64) && as(result[j], float64) == as(value[j], float64))
+//@   ensures[time-elements] old(b.Err) == nil && b.Err == nil ==> forall(j, 0 <= j && j < len(value) && istype(value[j], time.Time) ==> istype(result[j], time.Time) && timeInstant(as(result[j], time.Time)) == timeInstant(as(value[j], time.Time)))
+//@   ensures[bool-elements] old(b.Err) == nil && b.Err == nil ==> forall(j, 0 <= j && j < len(value) && istype(value[j], bool) ==> istype(result[j], bool) && as(result[j], bool) == as(value[j], bool))
